@@ -41,6 +41,11 @@ instance (st : ArbSt) : Decidable (WF st) :=
   then isTrue ⟨h.1, h.2.1, h.2.2.1, h.2.2.2⟩
   else isFalse fun w => h ⟨w.jobIds, w.podIds, w.refNs, w.uniqueOpen⟩
 
+/-- executable form of `WF` (printed by the driver before every round, compared with the harness' own evaluation) -/
+def wfB (st : ArbSt) : Bool := decide (WF st)
+
+theorem wfB_iff (st : ArbSt) : wfB st = true ↔ WF st := by simp [wfB]
+
 /-- how one loop iteration changes the state, as far as the counters are concerned -/
 structure StepRel (st st' : ArbSt) (f : JobA → JobA) (adm : Option JobA) : Prop where
   pods : st'.pods = st.pods
@@ -161,3 +166,525 @@ theorem processJob_rel (cfg : ArbCfg) (uf : List Nat) (st : ArbSt) (jid : Nat) (
       · have hn' : nonRetryable cfg p = false := by simpa using hn
         simp only [hn', Bool.not_false, if_true]
         exact ⟨_, none, stepRel_failed st jid, by simpa [processJob, hj, hp, hn'] using hnone⟩
+
+theorem StepRel.wf {st st' : ArbSt} {f : JobA → JobA} {adm : Option JobA} (R : StepRel st st' f adm) (w : WF st) :
+    WF st' := by
+  have hopen : ∀ j, (f j).phase ≤ 2 → j.phase ≤ 2 := by
+    intro j h; rcases (R.keep j).2.2.2 with e | e <;> omega
+  refine ⟨?_, by rw [R.pods]; exact w.podIds, ?_, ?_⟩
+  · rw [R.jobs, List.map_map]
+    have : ((fun x : JobA => x.id) ∘ f) = fun x => x.id := by funext j; exact (R.keep j).1
+    rw [this]; exact w.jobIds
+  · intro j' hj' p hp hid
+    rw [R.jobs] at hj'; rw [R.pods] at hp
+    obtain ⟨j, hj, rfl⟩ := List.mem_map.mp hj'
+    rw [(R.keep j).2.1] at hid; rw [(R.keep j).2.2.1]
+    exact w.refNs j hj p hp hid
+  · intro a ha b hb pa pb h0 he
+    rw [R.jobs] at ha hb
+    obtain ⟨j1, hj1, rfl⟩ := List.mem_map.mp ha
+    obtain ⟨j2, hj2, rfl⟩ := List.mem_map.mp hb
+    rw [(R.keep j1).2.1] at h0 he; rw [(R.keep j2).2.1] at he
+    rw [w.uniqueOpen j1 hj1 j2 hj2 (hopen j1 pa) (hopen j2 pb) h0 he]
+
+theorem liveR_open {st : ArbSt} {j : JobA} (h : liveR st j = true) : j.phase ≤ 2 := by
+  simp only [liveR, live, Bool.or_eq_true, Bool.and_eq_true, beq_iff_eq] at h
+  omega
+
+/-- job counters: at most one more than `r` counts, and not more when nothing was admitted -/
+theorem jobCount_step {st st' : ArbSt} {f : JobA → JobA} {adm : Option JobA} (R : StepRel st st' f adm)
+    (h1 : (st.jobs.map (·.id)).Nodup) (q' sel r : JobA → Bool) (hq : ∀ j, q' j = (liveR st' j && sel j))
+    (hsel : ∀ j, sel (f j) = sel j)
+    (hr : ∀ j ∈ st.jobs, liveR st j = true → sel j = true → adm ≠ some j → r j = true) :
+    st'.jobs.countP q' ≤ st.jobs.countP r + (if adm.isSome then 1 else 0) := by
+  rw [R.jobs, List.countP_map]
+  have key : ∀ j ∈ st.jobs, (q' ∘ f) j = true → r j = true ∨ adm = some j := by
+    intro j hj h
+    simp only [Function.comp, hq, hsel, Bool.and_eq_true] at h
+    by_cases ha : adm = some j
+    · exact Or.inr ha
+    · rcases R.live j hj h.1 with hl | hl
+      · exact Or.inl (hr j hj hl h.2 ha)
+      · exact absurd hl ha
+  cases adm with
+  | none =>
+    simp only [Option.isSome_none, Bool.false_eq_true, if_false, Nat.add_zero]
+    exact List.countP_mono_left fun j hj h => (key j hj h).resolve_right (by simp)
+  | some jj =>
+    simp only [Option.isSome_some, if_true]
+    apply countP_le_add_one (fun e : JobA => e.id) _ _ jj.id st.jobs h1
+    intro j hj h
+    rcases key j hj h with h' | h'
+    · exact Or.inl h'
+    · right; simp at h'; rw [h']
+
+theorem hasJob_step {st st' : ArbSt} {f : JobA → JobA} {adm : Option JobA} (R : StepRel st st' f adm) (v : PodA)
+    (h : hasJob st' true v = true) : hasJob st true v = true ∨ ∃ jj, adm = some jj ∧ jj.pod = v.id := by
+  simp only [hasJob, R.jobs, List.any_map, List.any_eq_true, Function.comp, Bool.and_eq_true, beq_iff_eq] at h ⊢
+  obtain ⟨j, hj, hl, hp⟩ := h
+  rw [(R.keep j).2.1] at hp
+  rcases R.live j hj hl with h' | h'
+  · exact Or.inl ⟨j, hj, h', hp⟩
+  · exact Or.inr ⟨j, h', hp⟩
+
+theorem hasJobNs_step {st st' : ArbSt} {f : JobA → JobA} {adm : Option JobA} (R : StepRel st st' f adm) (k : Nat) (v : PodA)
+    (h : hasJobNs st' k v = true) :
+    hasJobNs st k v = true ∨ ∃ jj, adm = some jj ∧ jj.pod = v.id ∧ jj.ns = k ∧ jj.pod ≠ 0 := by
+  simp only [hasJobNs, R.jobs, List.any_map, List.any_eq_true, Function.comp, Bool.and_eq_true, beq_iff_eq,
+    bne_iff_ne, ne_eq] at h ⊢
+  obtain ⟨j, hj, ⟨⟨hl, hn⟩, h0⟩, hp⟩ := h
+  rw [(R.keep j).2.1] at hp h0; rw [(R.keep j).2.2.1] at hn
+  rcases R.live j hj hl with h' | h'
+  · exact Or.inl ⟨j, hj, ⟨⟨h', hn⟩, h0⟩, hp⟩
+  · exact Or.inr ⟨j, h', hp, hn, h0⟩
+
+/-- the admission of `jid` on `st` is one the code exempts from every limit: the job becomes live although its
+    pod is gone / its PodRef is nil (`filtering(nil)` passes), or its pod carries the evict annotation
+    (`retryablePodFilter = HaveEvictAnnotation ∨ …`). -/
+def exemptAdm (cfg : ArbCfg) (uf : List Nat) (st : ArbSt) (jid : Nat) : Bool :=
+  match findJob st jid with
+  | none => false
+  | some j => (processJob cfg uf st jid).2 == .passed && decide (j.phase ≤ 1) &&
+      (match (if j.pod = 0 then none else findPod st j.pod) with
+       | none => true
+       | some p => p.ann)
+
+/-- number of exempt admissions of a round -/
+def roundExempt (cfg : ArbCfg) (uf : List Nat) : ArbSt → List Nat → Nat
+  | _, [] => 0
+  | st, jid :: r => (if exemptAdm cfg uf st jid then 1 else 0) + roundExempt cfg uf (processJob cfg uf st jid).1 r
+
+theorem findPod_mem {st : ArbSt} {pid : Nat} {p : PodA} (h : findPod st pid = some p) : p ∈ st.pods ∧ p.id = pid := by
+  refine ⟨List.mem_of_find?_eq_some h, ?_⟩
+  have := List.find?_some h
+  simpa using this
+
+theorem findPod_of_mem {st : ArbSt} (h3 : (st.pods.map (·.id)).Nodup) {v : PodA} (hv : v ∈ st.pods) :
+    findPod st v.id = some v := by
+  cases h : findPod st v.id with
+  | none =>
+    have := List.find?_eq_none.mp h v hv
+    simp at this
+  | some p => rw [findPod_unique st h3 v.id p v h hv rfl]
+
+/-- nothing admitted · an exempt admission · a checked admission of job `jj` for pod `p` -/
+theorem adm_cases {cfg : ArbCfg} {uf : List Nat} {st : ArbSt} {jid : Nat} {f : JobA → JobA} {adm : Option JobA}
+    (R : StepRel st (processJob cfg uf st jid).1 f adm) (I : StepInfo cfg uf st jid adm) (w : WF st) :
+    adm = none ∨ (adm.isSome = true ∧ exemptAdm cfg uf st jid = true) ∨
+    (∃ jj p, adm = some jj ∧ jj ∈ st.jobs ∧ jj.phase ≤ 1 ∧ jj.pod ≠ 0 ∧ p ∈ st.pods ∧ p.id = jj.pod ∧ p.ns = jj.ns ∧
+      retryableChecks cfg st true p = true) := by
+  cases hadm : adm with
+  | none => exact Or.inl rfl
+  | some jj =>
+    right
+    obtain ⟨hf, hv⟩ := I.found jj hadm
+    obtain ⟨hmem, hph⟩ := R.admOpen jj hadm
+    by_cases h0 : jj.pod = 0
+    · left; simp [exemptAdm, hf, hv, hph, h0]
+    · cases hp : findPod st jj.pod with
+      | none => left; simp [exemptAdm, hf, hv, hph, h0, hp]
+      | some p =>
+        by_cases ha : p.ann = true
+        · left; simp [exemptAdm, hf, hv, hph, h0, hp, ha]
+        · right
+          have ha' : p.ann = false := by simpa using ha
+          obtain ⟨hpm, hid⟩ := findPod_mem hp
+          exact ⟨jj, p, rfl, hmem, hph, h0, hpm, hid, w.refNs jj hmem p hpm hid, I.checked jj p hadm h0 hp ha'⟩
+
+/-! ### global -/
+
+theorem step_global (cfg : ArbCfg) (uf : List Nat) (st : ArbSt) (jid : Nat) (w : WF st)
+    (hs : gateSkipped cfg 5 = false) (hl : 0 < cfg.maxGlobal) :
+    cntGlobal (processJob cfg uf st jid).1 ≤ cntGlobal st + (if exemptAdm cfg uf st jid then 1 else 0) ∨
+      cntGlobal (processJob cfg uf st jid).1 ≤ cfg.maxGlobal.toNat := by
+  obtain ⟨f, adm, R, I⟩ := processJob_rel cfg uf st jid w.jobIds
+  have hgen := jobCount_step R w.jobIds (fun j => liveR (processJob cfg uf st jid).1 j && j.pod != 0)
+    (fun j => j.pod != 0) (fun j => liveR st j && j.pod != 0) (fun _ => rfl)
+    (fun j => by rw [(R.keep j).2.1]) (fun j _ h1 h2 _ => by simp [h1, h2])
+  rcases adm_cases R I w with h | ⟨h, he⟩ | ⟨jj, p, hadm, hjm, hph, h0, hpm, hid, _, hck⟩
+  · left; subst h
+    simp only [Option.isSome_none, Bool.false_eq_true, if_false, Nat.add_zero] at hgen
+    simp only [cntGlobal]; split <;> omega
+  · left; simp only [h, he, if_true] at hgen ⊢; exact hgen
+  · right
+    have hK := jobCount_step R w.jobIds (fun j => liveR (processJob cfg uf st jid).1 j && j.pod != 0)
+      (fun j => j.pod != 0) (fun j => live st.arbitrated true j && j.pod != 0 && j.pod != p.id) (fun _ => rfl)
+      (fun j => by rw [(R.keep j).2.1]) (by
+        intro j hj h1 h2 hne
+        have h1' : live st.arbitrated true j = true := h1
+        have : j.pod ≠ p.id := by
+          intro e
+          have := w.uniqueOpen j hj jj hjm (liveR_open h1) (by omega) (by simpa using h2) (by rw [e, hid])
+          exact hne (by rw [hadm, this])
+        simp [h1', h2, this])
+    have hpass : passGlobal cfg st true p = true := by
+      simp only [retryableChecks, Bool.and_eq_true] at hck; exact hck.1.1.1
+    have hoff : limitOff cfg.maxGlobal = false := by simp [limitOff]; omega
+    simp only [passGlobal, hs, hoff, Bool.false_or, decide_eq_true_eq, globalJobs,
+      ← List.countP_eq_length_filter] at hpass
+    simp only [hadm, Option.isSome_some, if_true] at hK
+    simp only [cntGlobal]
+    omega
+
+/-! ### per namespace -/
+
+theorem step_ns (cfg : ArbCfg) (uf : List Nat) (st : ArbSt) (jid : Nat) (w : WF st) (k : Nat)
+    (hs : gateSkipped cfg 4 = false) (hl : 0 < cfg.maxNs) :
+    cntNs (processJob cfg uf st jid).1 k ≤ cntNs st k + (if exemptAdm cfg uf st jid then 1 else 0) ∨
+      cntNs (processJob cfg uf st jid).1 k ≤ cfg.maxNs.toNat := by
+  obtain ⟨f, adm, R, I⟩ := processJob_rel cfg uf st jid w.jobIds
+  have hselk : ∀ j : JobA, (fun j : JobA => j.pod != 0 && j.ns == k) (f j) = (fun j : JobA => j.pod != 0 && j.ns == k) j := by
+    intro j; simp only [(R.keep j).2.1, (R.keep j).2.2.1]
+  have hgen := jobCount_step R w.jobIds (fun j => liveR (processJob cfg uf st jid).1 j && j.pod != 0 && j.ns == k)
+    (fun j => j.pod != 0 && j.ns == k) (fun j => liveR st j && j.pod != 0 && j.ns == k) (fun _ => by simp [Bool.and_assoc])
+    hselk (fun j _ h1 h2 _ => by simp only [Bool.and_eq_true] at h2; simp [h1, h2.1, h2.2])
+  rcases adm_cases R I w with h | ⟨h, he⟩ | ⟨jj, p, hadm, hjm, hph, h0, hpm, hid, hns, hck⟩
+  · left; subst h
+    simp only [Option.isSome_none, Bool.false_eq_true, if_false, Nat.add_zero] at hgen
+    simp only [cntNs]; split <;> omega
+  · left; simp only [h, he, if_true] at hgen ⊢; exact hgen
+  · by_cases hk : jj.ns = k
+    · right
+      have hK := jobCount_step R w.jobIds (fun j => liveR (processJob cfg uf st jid).1 j && j.pod != 0 && j.ns == k)
+        (fun j => j.pod != 0 && j.ns == k)
+        (fun j => live st.arbitrated true j && j.pod != 0 && j.pod != p.id && j.ns == p.ns) (fun _ => by simp [Bool.and_assoc])
+        hselk (by
+          intro j hj h1 h2 hne
+          have h1' : live st.arbitrated true j = true := h1
+          simp only [Bool.and_eq_true, bne_iff_ne, ne_eq, beq_iff_eq] at h2
+          have : j.pod ≠ p.id := by
+            intro e
+            have := w.uniqueOpen j hj jj hjm (liveR_open h1) (by omega) h2.1 (by rw [e, hid])
+            exact hne (by rw [hadm, this])
+          simp [h1', h2.1, this, h2.2, hns, hk])
+      have hpass : passNs cfg st true p = true := by
+        simp only [retryableChecks, Bool.and_eq_true] at hck; exact hck.1.2
+      have hoff : limitOff cfg.maxNs = false := by simp [limitOff]; omega
+      simp only [passNs, hs, hoff, Bool.false_or, decide_eq_true_eq, nsJobs,
+        ← List.countP_eq_length_filter] at hpass
+      simp only [hadm, Option.isSome_some, if_true] at hK
+      simp only [cntNs]
+      omega
+    · left
+      -- the admitted job lies in another namespace: this counter does not move
+      have : cntNs (processJob cfg uf st jid).1 k ≤ cntNs st k := by
+        simp only [cntNs, R.jobs, List.countP_map]
+        apply List.countP_mono_left
+        intro j hj h
+        simp only [Function.comp, Bool.and_eq_true, (R.keep j).2.1, (R.keep j).2.2.1] at h
+        rcases R.live j hj h.1.1 with hl' | hl'
+        · simp [hl', h.1.2, h.2]
+        · rw [hadm] at hl'
+          have : jj = j := by simpa using hl'
+          subst this
+          exact absurd (by simpa using h.2) hk
+      omega
+
+/-! ### pod counters -/
+
+/-- pod counters: at most one more when a job was admitted, not more otherwise -/
+theorem podCount_step {st st' : ArbSt} {f : JobA → JobA} {adm : Option JobA} (R : StepRel st st' f adm)
+    (h3 : (st.pods.map (·.id)).Nodup) (q' q : PodA → Bool)
+    (h : ∀ v ∈ st.pods, q' v = true → q v = true ∨ ∃ jj, adm = some jj ∧ jj.pod = v.id) :
+    st'.pods.countP q' ≤ st.pods.countP q + (if adm.isSome then 1 else 0) := by
+  rw [R.pods]
+  cases adm with
+  | none =>
+    simp only [Option.isSome_none, Bool.false_eq_true, if_false, Nat.add_zero]
+    exact List.countP_mono_left fun v hv hq => (h v hv hq).resolve_right (by simp)
+  | some jj =>
+    simp only [Option.isSome_some, if_true]
+    apply countP_le_add_one (fun e : PodA => e.id) _ _ jj.pod st.pods h3
+    intro v hv hq
+    rcases h v hv hq with h' | ⟨x, hx, hp⟩
+    · exact Or.inl h'
+    · right; simp at hx; rw [← hp, hx]
+
+theorem step_node (cfg : ArbCfg) (uf : List Nat) (st : ArbSt) (jid : Nat) (w : WF st) (n : Nat) (hn : n ≠ 0)
+    (hs : gateSkipped cfg 3 = false) (hl : 0 < cfg.maxNode) :
+    cntNode (processJob cfg uf st jid).1 n ≤ cntNode st n + (if exemptAdm cfg uf st jid then 1 else 0) ∨
+      cntNode (processJob cfg uf st jid).1 n ≤ cfg.maxNode.toNat := by
+  obtain ⟨f, adm, R, I⟩ := processJob_rel cfg uf st jid w.jobIds
+  have hgen := podCount_step R w.podIds (fun v => v.node == n && hasJob (processJob cfg uf st jid).1 true v)
+    (fun v => v.node == n && hasJob st true v) (by
+      intro v _ hq
+      simp only [Bool.and_eq_true] at hq
+      rcases hasJob_step R v hq.2 with h' | h'
+      · left; simp [hq.1, h']
+      · exact Or.inr h')
+  rcases adm_cases R I w with h | ⟨h, he⟩ | ⟨jj, p, hadm, hjm, hph, h0, hpm, hid, _, hck⟩
+  · left; subst h
+    simp only [Option.isSome_none, Bool.false_eq_true, if_false, Nat.add_zero] at hgen
+    simp only [cntNode]; split <;> omega
+  · left; simp only [h, he, if_true] at hgen ⊢; exact hgen
+  · by_cases hk : p.node = n
+    · right
+      have hK : (processJob cfg uf st jid).1.pods.countP (fun v => v.node == n && hasJob (processJob cfg uf st jid).1 true v) ≤
+          st.pods.countP (fun v => v.id != p.id && v.node == p.node && hasJob st true v) + 1 := by
+        rw [R.pods]
+        apply countP_le_add_one (fun e : PodA => e.id) _ _ p.id st.pods w.podIds
+        intro v _ hq
+        simp only [Bool.and_eq_true, beq_iff_eq] at hq
+        by_cases hv : v.id = p.id
+        · exact Or.inr hv
+        · left
+          rcases hasJob_step R v hq.2 with h' | ⟨x, hx, hp⟩
+          · simp [hv, hq.1, hk, h']
+          · rw [hadm] at hx
+            have : jj = x := by simpa using hx
+            subst this
+            exact absurd (hp.symm.trans hid.symm) hv
+      have hpass : passNode cfg st true p = true := by
+        simp only [retryableChecks, Bool.and_eq_true] at hck; exact hck.1.1.2
+      have hoff : limitOff cfg.maxNode = false := by simp [limitOff]; omega
+      have hne : (st.pods.filter fun v => v.node == p.node).isEmpty = false := by
+        cases he : (st.pods.filter fun v => v.node == p.node) with
+        | nil =>
+          have : p ∈ st.pods.filter fun v => v.node == p.node := List.mem_filter.mpr ⟨hpm, by simp⟩
+          rw [he] at this; simp at this
+        | cons a r => rfl
+      have hpn : (p.node == 0) = false := by simp [hk, hn]
+      simp only [passNode, hs, hoff, hne, hpn, Bool.false_or, decide_eq_true_eq, nodePods,
+        ← List.countP_eq_length_filter] at hpass
+      simp only [cntNode]
+      omega
+    · left
+      have : cntNode (processJob cfg uf st jid).1 n ≤ cntNode st n := by
+        simp only [cntNode, R.pods]
+        apply List.countP_mono_left
+        intro v hv hq
+        simp only [Bool.and_eq_true, beq_iff_eq] at hq
+        rcases hasJob_step R v hq.2 with h' | ⟨x, hx, hp⟩
+        · simp [hq.1, h']
+        · rw [hadm] at hx
+          have : jj = x := by simpa using hx
+          subst this
+          have hvp : v = p := findPod_unique st w.podIds p.id p v (findPod_of_mem w.podIds hpm) hv (hp.symm.trans hid.symm)
+          subst hvp
+          exact absurd hq.1 hk
+      omega
+
+/-! ### per workload -/
+
+/-- the configured per-workload maximum as a number (0 when it cannot be evaluated: nothing is admitted then) -/
+def wlLimit (cfg : ArbCfg) (w : Nat) (kind : Nat) (arg : Int) : Nat :=
+  (getMaxK (lookup cfg.replicas w) kind arg).getD 0
+
+theorem foldl_addNew_pod (l : List JobA) (acc : List Nat) :
+    l.foldl (fun acc j => addNew acc j.pod) acc = (l.map (·.pod)).foldl addNew acc := by
+  rw [List.foldl_map]
+
+/-- a pod of `p`'s workload, other than `p`, with a live job in `p`'s namespace is one of `migratingPods` -/
+theorem mem_migrating {st : ArbSt} (h3 : (st.pods.map (·.id)).Nodup) {p v : PodA} (hv : v ∈ st.pods)
+    (hw : v.wl = p.wl) (hw0 : p.wl ≠ 0) (hne : v.id ≠ p.id) (hj : hasJobNs st p.ns v = true) :
+    v.id ∈ migrating st true p := by
+  unfold migrating
+  rw [foldl_addNew_pod, mem_foldl_addNew]
+  right
+  simp only [hasJobNs, List.any_eq_true, Bool.and_eq_true, beq_iff_eq, bne_iff_ne, ne_eq, liveR] at hj
+  obtain ⟨j, hjm, ⟨⟨hl, hn⟩, h0⟩, hp⟩ := hj
+  refine List.mem_map.mpr ⟨j, List.mem_filter.mpr ⟨hjm, ?_⟩, hp⟩
+  have hfp : findPod st v.id = some v := findPod_of_mem h3 hv
+  have h0' : ¬ v.id = 0 := hp ▸ h0
+  simp [hl, hn, h0', hp, hne, hfp, hw, hw0]
+
+theorem passWorkload_migr {cfg : ArbCfg} {st : ArbSt} {p : PodA} (h : passWorkload cfg st true p = true)
+    (hs : gateSkipped cfg 2 = false) (hw : p.wl ≠ 0) :
+    (migrating st true p).length + 1 ≤ max (wlLimit cfg p.wl cfg.mmKind cfg.maxMigr) 1 := by
+  simp only [passWorkload, hs, Bool.false_and, Bool.false_eq_true, if_false, hw, wlLimit] at h ⊢
+  cases hm : getMaxK (lookup cfg.replicas p.wl) cfg.mmKind cfg.maxMigr with
+  | none => simp [hm] at h
+  | some mm =>
+    simp only [hm, Option.getD_some] at h ⊢
+    cases hu : (if gateSkipped cfg 1 = true then some 0 else getMaxK (lookup cfg.replicas p.wl) cfg.muKind cfg.maxUnav) with
+    | none => simp [hu] at h
+    | some mu =>
+      simp only [hu] at h
+      by_cases hc : (migrating st true p).length > 0 ∧ (migrating st true p).length ≥ mm
+      · simp [hc.1, hc.2] at h
+      · omega
+
+theorem passWorkload_unav {cfg : ArbCfg} {st : ArbSt} {p : PodA} (h : passWorkload cfg st true p = true)
+    (hs : gateSkipped cfg 1 = false) (hw : p.wl ≠ 0) :
+    ((migrating st true p).foldl addNew (unavailable st p)).length + 1 ≤ wlLimit cfg p.wl cfg.muKind cfg.maxUnav := by
+  simp only [passWorkload, hs, Bool.and_false, Bool.false_eq_true, if_false, hw, wlLimit] at h ⊢
+  cases hm : (if gateSkipped cfg 2 = true then some 0 else getMaxK (lookup cfg.replicas p.wl) cfg.mmKind cfg.maxMigr) with
+  | none => simp [hm] at h
+  | some mm =>
+    simp only [hm] at h
+    cases hu : getMaxK (lookup cfg.replicas p.wl) cfg.muKind cfg.maxUnav with
+    | none => simp [hu] at h
+    | some mu =>
+      simp only [hu, Option.getD_some] at h ⊢
+      split at h
+      · simp at h
+      · simp at h; omega
+
+/-- ids of the pods counted by a pod counter: duplicate-free -/
+theorem countP_eq_ids {st : ArbSt} (h3 : (st.pods.map (·.id)).Nodup) (q : PodA → Bool) :
+    st.pods.countP q = ((st.pods.filter q).map (·.id)).length ∧ ((st.pods.filter q).map (·.id)).Nodup := by
+  refine ⟨by simp [List.countP_eq_length_filter], ?_⟩
+  exact List.Nodup.sublist (List.Sublist.map _ List.filter_sublist) h3
+
+theorem step_migr (cfg : ArbCfg) (uf : List Nat) (st : ArbSt) (jid : Nat) (w : WF st) (wl k : Nat) (hw : wl ≠ 0)
+    (hs : gateSkipped cfg 2 = false) :
+    cntMigr (processJob cfg uf st jid).1 wl k ≤ cntMigr st wl k + (if exemptAdm cfg uf st jid then 1 else 0) ∨
+      cntMigr (processJob cfg uf st jid).1 wl k ≤ max (wlLimit cfg wl cfg.mmKind cfg.maxMigr) 1 := by
+  obtain ⟨f, adm, R, I⟩ := processJob_rel cfg uf st jid w.jobIds
+  have hgen := podCount_step R w.podIds (fun q => q.wl == wl && hasJobNs (processJob cfg uf st jid).1 k q)
+    (fun q => q.wl == wl && hasJobNs st k q) (by
+      intro v _ hq
+      simp only [Bool.and_eq_true] at hq
+      rcases hasJobNs_step R k v hq.2 with h' | ⟨x, hx, hp, _⟩
+      · left; simp [hq.1, h']
+      · exact Or.inr ⟨x, hx, hp⟩)
+  rcases adm_cases R I w with h | ⟨h, he⟩ | ⟨jj, p, hadm, hjm, hph, h0, hpm, hid, hns, hck⟩
+  · left; subst h
+    simp only [Option.isSome_none, Bool.false_eq_true, if_false, Nat.add_zero] at hgen
+    simp only [cntMigr]; split <;> omega
+  · left; simp only [h, he, if_true] at hgen ⊢; exact hgen
+  · by_cases hk : p.wl = wl ∧ jj.ns = k
+    · right
+      obtain ⟨hk1, hk2⟩ := hk
+      have hpass : passWorkload cfg st true p = true := by
+        simp only [retryableChecks, Bool.and_eq_true] at hck; exact hck.2
+      have hb := passWorkload_migr hpass hs (by rw [hk1]; exact hw)
+      rw [hk1] at hb
+      have hsub : cntMigr (processJob cfg uf st jid).1 wl k ≤ (p.id :: migrating st true p).length := by
+        simp only [cntMigr, R.pods]
+        obtain ⟨e1, e2⟩ := countP_eq_ids w.podIds (fun q => q.wl == wl && hasJobNs (processJob cfg uf st jid).1 k q)
+        rw [e1]
+        apply nodup_subset_length _ _ e2
+        intro x hx
+        obtain ⟨v, hvf, rfl⟩ := List.mem_map.mp hx
+        obtain ⟨hv, hq⟩ := List.mem_filter.mp hvf
+        simp only [Bool.and_eq_true, beq_iff_eq] at hq
+        by_cases hvp : v.id = p.id
+        · rw [hvp]; exact List.mem_cons_self ..
+        · apply List.mem_cons_of_mem
+          rcases hasJobNs_step R k v hq.2 with h' | ⟨x, hx, hp, _⟩
+          · exact mem_migrating w.podIds hv (hq.1.trans hk1.symm) (by rw [hk1]; exact hw) hvp (by rw [hns, hk2]; exact h')
+          · rw [hadm] at hx
+            have : jj = x := by simpa using hx
+            subst this
+            exact absurd (hp.symm.trans hid.symm) hvp
+      simp only [List.length_cons] at hsub
+      omega
+    · left
+      have : cntMigr (processJob cfg uf st jid).1 wl k ≤ cntMigr st wl k := by
+        simp only [cntMigr, R.pods]
+        apply List.countP_mono_left
+        intro v hv hq
+        simp only [Bool.and_eq_true, beq_iff_eq] at hq
+        rcases hasJobNs_step R k v hq.2 with h' | ⟨x, hx, hp, hxk, _⟩
+        · simp [hq.1, h']
+        · rw [hadm] at hx
+          have : jj = x := by simpa using hx
+          subst this
+          have hvp : v = p := findPod_unique st w.podIds p.id p v (findPod_of_mem w.podIds hpm) hv (hp.symm.trans hid.symm)
+          subst hvp
+          exact absurd ⟨hq.1, hxk⟩ hk
+      omega
+
+theorem step_unav (cfg : ArbCfg) (uf : List Nat) (st : ArbSt) (jid : Nat) (w : WF st) (wl k : Nat) (hw : wl ≠ 0)
+    (hs : gateSkipped cfg 1 = false) :
+    cntUnav (processJob cfg uf st jid).1 wl k ≤ cntUnav st wl k + (if exemptAdm cfg uf st jid then 1 else 0) ∨
+      cntUnav (processJob cfg uf st jid).1 wl k ≤ wlLimit cfg wl cfg.muKind cfg.maxUnav := by
+  obtain ⟨f, adm, R, I⟩ := processJob_rel cfg uf st jid w.jobIds
+  have hgen := podCount_step R w.podIds
+    (fun q => q.wl == wl && ((q.ns == k && !podAvail q) || hasJobNs (processJob cfg uf st jid).1 k q))
+    (fun q => q.wl == wl && ((q.ns == k && !podAvail q) || hasJobNs st k q)) (by
+      intro v _ hq
+      simp only [Bool.and_eq_true, Bool.or_eq_true] at hq
+      rcases hq.2 with hu | hj
+      · left; simp only [Bool.and_eq_true, Bool.or_eq_true]; exact ⟨hq.1, Or.inl hu⟩
+      · rcases hasJobNs_step R k v hj with h' | ⟨x, hx, hp, _⟩
+        · left; simp only [Bool.and_eq_true, Bool.or_eq_true]; exact ⟨hq.1, Or.inr h'⟩
+        · exact Or.inr ⟨x, hx, hp⟩)
+  rcases adm_cases R I w with h | ⟨h, he⟩ | ⟨jj, p, hadm, hjm, hph, h0, hpm, hid, hns, hck⟩
+  · left; subst h
+    simp only [Option.isSome_none, Bool.false_eq_true, if_false, Nat.add_zero] at hgen
+    simp only [cntUnav]; split <;> omega
+  · left; simp only [h, he, if_true] at hgen ⊢; exact hgen
+  · by_cases hk : p.wl = wl ∧ jj.ns = k
+    · right
+      obtain ⟨hk1, hk2⟩ := hk
+      have hpass : passWorkload cfg st true p = true := by
+        simp only [retryableChecks, Bool.and_eq_true] at hck; exact hck.2
+      have hb := passWorkload_unav hpass hs (by rw [hk1]; exact hw)
+      rw [hk1] at hb
+      have hsub : cntUnav (processJob cfg uf st jid).1 wl k ≤
+          (p.id :: (migrating st true p).foldl addNew (unavailable st p)).length := by
+        simp only [cntUnav, R.pods]
+        obtain ⟨e1, e2⟩ := countP_eq_ids w.podIds
+          (fun q => q.wl == wl && ((q.ns == k && !podAvail q) || hasJobNs (processJob cfg uf st jid).1 k q))
+        rw [e1]
+        apply nodup_subset_length _ _ e2
+        intro x hx
+        obtain ⟨v, hvf, rfl⟩ := List.mem_map.mp hx
+        obtain ⟨hv, hq⟩ := List.mem_filter.mp hvf
+        simp only [Bool.and_eq_true, Bool.or_eq_true, beq_iff_eq] at hq
+        by_cases hvp : v.id = p.id
+        · rw [hvp]; exact List.mem_cons_self ..
+        · apply List.mem_cons_of_mem
+          rw [mem_foldl_addNew]
+          rcases hq.2 with hu | hj
+          · left
+            simp only [unavailable]
+            refine List.mem_map.mpr ⟨v, List.mem_filter.mpr ⟨hv, ?_⟩, rfl⟩
+            simp only [Bool.and_eq_true, beq_iff_eq]
+            exact ⟨⟨hq.1.trans hk1.symm, by rw [hns, hk2]; exact hu.1⟩, hu.2⟩
+          · right
+            rcases hasJobNs_step R k v hj with h' | ⟨x, hx, hp, _⟩
+            · exact mem_migrating w.podIds hv (hq.1.trans hk1.symm) (by rw [hk1]; exact hw) hvp (by rw [hns, hk2]; exact h')
+            · rw [hadm] at hx
+              have : jj = x := by simpa using hx
+              subst this
+              exact absurd (hp.symm.trans hid.symm) hvp
+      simp only [List.length_cons] at hsub
+      omega
+    · left
+      have : cntUnav (processJob cfg uf st jid).1 wl k ≤ cntUnav st wl k := by
+        simp only [cntUnav, R.pods]
+        apply List.countP_mono_left
+        intro v hv hq
+        simp only [Bool.and_eq_true, Bool.or_eq_true, beq_iff_eq] at hq ⊢
+        refine ⟨hq.1, ?_⟩
+        rcases hq.2 with hu | hj
+        · exact Or.inl hu
+        · rcases hasJobNs_step R k v hj with h' | ⟨x, hx, hp, hxk, _⟩
+          · exact Or.inr h'
+          · rw [hadm] at hx
+            have : jj = x := by simpa using hx
+            subst this
+            have hvp : v = p := findPod_unique st w.podIds p.id p v (findPod_of_mem w.podIds hpm) hv (hp.symm.trans hid.symm)
+            subst hvp
+            exact absurd ⟨hq.1, hxk⟩ hk
+      omega
+
+/-! ### the whole round -/
+
+theorem processJob_wf (cfg : ArbCfg) (uf : List Nat) (st : ArbSt) (jid : Nat) (w : WF st) :
+    WF (processJob cfg uf st jid).1 := by
+  obtain ⟨f, adm, R, _⟩ := processJob_rel cfg uf st jid w.jobIds
+  exact R.wf w
+
+theorem round_wf (cfg : ArbCfg) (uf : List Nat) (order : List Nat) : ∀ st, WF st → WF (round cfg uf st order) := by
+  induction order with
+  | nil => intro st w; exact w
+  | cons jid r ih => intro st w; simpa [round] using ih _ (processJob_wf cfg uf st jid w)
+
+/-- induction over the loop of doOnceArbitrate: a counter that per iteration either grows by at most the exempt
+    admission or ends within the limit stays ≤ max(limit, before) + exempt admissions. -/
+theorem fold_bound (cfg : ArbCfg) (uf : List Nat) (C : ArbSt → Nat) (L : Nat)
+    (hstep : ∀ st jid, WF st →
+      C (processJob cfg uf st jid).1 ≤ C st + (if exemptAdm cfg uf st jid then 1 else 0) ∨ C (processJob cfg uf st jid).1 ≤ L)
+    (order : List Nat) : ∀ st, WF st → C (round cfg uf st order) ≤ max L (C st) + roundExempt cfg uf st order := by
+  induction order with
+  | nil => intro st _; simp only [round, List.foldl_nil, roundExempt]; omega
+  | cons jid r ih =>
+    intro st w
+    have h := ih _ (processJob_wf cfg uf st jid w)
+    have hs := hstep st jid w
+    simp only [round, List.foldl_cons, roundExempt] at h ⊢
+    rcases hs with hs | hs <;> omega
